@@ -105,7 +105,7 @@ CLAIMED = {
         'Virtual clock substituted for `time`; in-process transport; Worker objects shared between pools.',
         '5/C20'),
     'C06': (
-        'TLA+ spec Sched.tla (control loop of WorkerPool.iterate + client coroutine + fault actions) model-checked by TLC; fault assignments executed as fault plans on the real WorkerPool / PrefetchedCourierServer / orchestrate over an in-process transport; the rejected interleaving forced on the real code',
+        'TLA+ spec Sched.tla (control loop of WorkerPool.iterate + client coroutine + fault actions) model-checked by TLC; fault assignments executed as fault plans on the real WorkerPool / PrefetchedCourierServer / orchestrate over an in-process transport; recorded executions validated by TLC against Trace_Sched.tla; the rejected interleaving and two more orders forced on the real code',
         'TLC explores every interleaving of loop polls, coroutine steps and faults (deadline, death, application error) within the budget for exactly-once '
         'state forwarding, at-least-once outputs, error surfacing and termination; fault plans (outcome of the i-th call of each worker) run on the real code '
         'and the outcome is judged against the in-process run (aggregate equal, every output present, no state twice, errors surface, workers released).',
